@@ -10,6 +10,8 @@ import (
 	"go/types"
 	"sort"
 	"strings"
+
+	"golang.org/x/tools/go/ssa"
 )
 
 func init() {
@@ -360,6 +362,74 @@ func runC08(c *Ctx, r *Report) {
 		return true
 	})
 	r.Check(okSort, "R-C08.3", r.Key("R-C08.3", tj, "heads-sorted", ""), tj.Body.Pos(), "the manifest's head list is built from the sorted slice", "ToJSONLog does not build the head list from a slice it sorted first: the manifest identifier depends on the order in which merges arrived")
+
+	// ---- R-C08.6: the encoded view is the entry's own field values, verbatim
+	r.Doc("R-C08.6", "the view handed to the codec carries every field exactly as the entry's getter returns it (no de-duplication, sorting or nil/empty reshaping between decode and re-encode)")
+	{
+		normV := p.FuncI("entry", "", "Normalize")
+		snf := p.SSAFunc(normV)
+		entT := p.Named("entry", "Entry")
+		getterOf := map[string]string{"LogID": "GetLogID", "Payload": "GetPayload", "Next": "GetNext", "Refs": "GetRefs", "V": "GetV", "Key": "GetKey", "Identity": "GetIdentity", "Sig": "GetSig", "AdditionalData": "GetAdditionalData"}
+		var strip func(v ssa.Value, depth int) []ssa.Value
+		strip = func(v ssa.Value, depth int) []ssa.Value {
+			if depth > 6 {
+				return []ssa.Value{v}
+			}
+			switch x := v.(type) {
+			case *ssa.ChangeType:
+				return strip(x.X, depth+1)
+			case *ssa.MakeInterface:
+				return strip(x.X, depth+1)
+			case *ssa.Phi:
+				var out []ssa.Value
+				for _, e := range x.Edges {
+					out = append(out, strip(e, depth+1)...)
+				}
+				return out
+			}
+			return []ssa.Value{v}
+		}
+		nv := 0
+		allInstrs(snf, false, func(ins ssa.Instruction) {
+			st, ok := ins.(*ssa.Store)
+			if !ok {
+				return
+			}
+			f, fa := fieldOf(st.Addr)
+			if f == nil || namedOf(fa.X.Type()) != entT {
+				return
+			}
+			g, ok := getterOf[f.Name()]
+			if !ok {
+				return
+			}
+			nv++
+			bad := ""
+			for _, src := range strip(st.Val, 0) {
+				call, isCall := src.(*ssa.Call)
+				if isCall && call.Call.IsInvoke() && call.Call.Method.Name() == g {
+					if _, isParam := call.Call.Value.(*ssa.Parameter); isParam {
+						continue
+					}
+				}
+				if isCall {
+					if cal := calleeOf(call); cal != nil {
+						bad = "passed through " + cal.Name() + "()"
+					} else if call.Call.IsInvoke() {
+						bad = "taken from " + call.Call.Method.Name() + "()"
+					} else {
+						bad = "computed by a call"
+					}
+				} else {
+					bad = "computed by " + fmt.Sprintf("%T", src)
+				}
+			}
+			r.Check(bad == "", "R-C08.6", r.Key("R-C08.6", normV, "verbatim", f.Name()), st.Pos(),
+				"Entry."+f.Name()+" of the encoded view is the result of "+g+"() itself",
+				"Normalize does not copy "+f.Name()+" verbatim from "+g+"() (it is "+bad+"): a decoded entry whose list repeats a link, or is null rather than empty, re-encodes to a different identifier than the one it was read from")
+		})
+		r.Floor("R-C08.6", "fields of the encoded view", nv, 6)
+	}
 
 	// ---- R-C08.4
 	norm := p.FuncI("entry", "", "Normalize")
